@@ -83,3 +83,32 @@ def minimise(module, plan, signature, max_exec=300, max_wall=20.0):
     best["shrink"] = {"executions": budget.used, "ops_before": len(plan.get("ops", [])),
                       "ops_after": len(best.get("ops", []))}
     return best
+
+
+def compact_entries(plan, parallel_cfg_keys=()):
+    """Drop plan["entries"] items that no op refers to (ops refer by key "i" or "idx") and renumber.
+
+    `parallel_cfg_keys`: config keys holding lists parallel to the entries (e.g. per-entry weights)."""
+    used = set()
+    for op in plan.get("ops", []):
+        if isinstance(op.get("i"), int):
+            used.add(op["i"])
+        for j in op.get("idx") or []:
+            used.add(j)
+    n = len(plan.get("entries", []))
+    keep = [j for j in range(n) if j in used]
+    if len(keep) == n:
+        return None
+    remap = {old: new for new, old in enumerate(keep)}
+    p = copy.deepcopy(plan)
+    p["entries"] = [plan["entries"][j] for j in keep]
+    for k in parallel_cfg_keys:
+        v = p["config"].get(k)
+        if isinstance(v, list) and len(v) == n:
+            p["config"][k] = [v[j] for j in keep]
+    for op in p["ops"]:
+        if isinstance(op.get("i"), int):
+            op["i"] = remap.get(op["i"], 10 ** 9)
+        if op.get("idx") is not None:
+            op["idx"] = [remap[j] for j in op["idx"] if j in remap]
+    return p
